@@ -84,7 +84,7 @@ def run(ctx):
     if ctx.replay:
         lines = [ctx.replay['case']['line']]
         meta = [('replay', None)]
-    n = 0 if ctx.replay else (20000 if thorough else 1200)
+    n = 0 if ctx.replay else (20000 if thorough else 1200 * ctx.scale)
     # --- serialisation + round trip ---
     for i in range(n):
         code = G.STATUS[i % len(G.STATUS)]
